@@ -54,6 +54,9 @@ pub struct CaseResult {
     pub validate_err: String,
     pub recovery: ToolRun,
     pub recovery_skip: ToolRun,
+    /// recovery without re-validation of written records (`validate_every` = 0)
+    #[serde(default)]
+    pub recovery_v0: ToolRun,
     pub move_recover: ToolRun,
     pub migrate: ToolRun,
     pub summary_records: Option<(usize, usize)>,
@@ -232,6 +235,8 @@ pub fn worker(jobs: &Path, results: &Path) -> i32 {
         r.recovery = tool_run(case.key_len, &outp, true, &mut cache, || pearl::tools::recovery_blob(&i2, &o2, 1, false));
         let (i2, o2) = (input.clone(), outp.clone());
         r.recovery_skip = tool_run(case.key_len, &outp, true, &mut cache, || pearl::tools::recovery_blob(&i2, &o2, 2, true));
+        let (i2, o2) = (input.clone(), outp.clone());
+        r.recovery_v0 = tool_run(case.key_len, &outp, true, &mut cache, || pearl::tools::recovery_blob(&i2, &o2, 0, false));
         let (i2, o2) = (input.clone(), outp.clone());
         r.migrate = tool_run(case.key_len, &outp, false, &mut cache, || pearl::tools::migrate_blob(&i2, &o2, 0, 1));
         // move_and_recover works in place: run it on a copy
@@ -481,6 +486,7 @@ fn judge_case(orig: &[u8], bc: &BlobCase, case: &Case, r: &CaseResult, stats: &m
     };
     check("recovery", &r.recovery, &prefix, true, &mut fs);
     check("recovery_skip", &r.recovery_skip, &with_skip, true, &mut fs);
+    check("recovery_validate_every_0", &r.recovery_v0, &prefix, true, &mut fs);
     if class != "blob header version/flags" {
         // a changed version byte legitimately selects a migration (v0 -> v1 reverses the keys)
         check("migrate", &r.migrate, &prefix, false, &mut fs);
